@@ -124,7 +124,10 @@ def opLtk (args : List String) (impl : String) : Verdict :=
         | none, none =>
           -- model Server.new with dummy online seeds gives the same identity
           match Server.new realEnv seed (zeros 32) (zeros 32) 64 with
-          | .ok s => if s.ltPub = ltpk ∧ s.srv = srv then ok label else l2 label "model Server.new identity differs"
+          | .ok s =>
+            if kvLookup imp "onl_distinct" = "0" then
+              l2 label "model assumption broken: OnlineKey::new() is modelled as drawing a fresh seed from the OS RNG, but two key objects of one process certify the same online key"
+            else if s.ltPub = ltpk ∧ s.srv = srv then ok label else l2 label "model Server.new identity differs"
           | _ => l2 label "model Server.new failed"
     | none => bad "ltk: seed"
   | _ => bad "ltk: arity"
